@@ -1,6 +1,7 @@
 package codegen
 
 import (
+	"log"
 	"strconv"
 
 	"github.com/HobbyOSs/gosk/pkg/ocode"
@@ -14,7 +15,8 @@ func handleINT(ocode ocode.Ocode) []byte {
 
 	// 割り込み番号を取得
 	if len(ocode.Operands) != 1 {
-		panic("INT instruction requires one operand")
+		log.Printf("error: INT instruction requires one operand, got %d", len(ocode.Operands))
+		return nil
 	}
 
 	// 0xを除去して16進数として解析
@@ -23,9 +25,11 @@ func handleINT(ocode ocode.Ocode) []byte {
 		intNum = intNum[2:]
 	}
 	// Parse as decimal (base 10)
-	num, err := strconv.ParseInt(intNum, 10, 8) // Change base to 10
-	if err != nil {
-		panic("Failed to parse INT number (decimal): " + err.Error()) // Update panic message
+	// 割り込み番号は 0..255 (符号なし8bit)。範囲外や数値でないオペランドは panic せず診断を出す。
+	num, err := strconv.ParseInt(intNum, 10, 64)
+	if err != nil || num < 0 || num > 255 {
+		log.Printf("error: invalid interrupt number '%s' for INT (expected 0..255)", ocode.Operands[0])
+		return nil
 	}
 
 	// 割り込み番号を追加
